@@ -2,3 +2,4 @@
 `_check_clean_session` (Properties/FnSession). -/
 import PahoProofs.Properties.C02
 import PahoProofs.Properties.FnSession
+import PahoProofs.Properties.SessionOrder
